@@ -285,6 +285,15 @@ def specBlit (same : Bool) (before srcBefore : Option RB) (implObs : String) : S
        | none => "no dump of the source buffer"),
       if same then contentCheck a (absContent b) else contentCheck a (blitExpect b sb)]
 
+/-- `copy` / `move` on the current buffer `rb`: model run, bookkeeping, SPEC. -/
+def copyMove (st : St) (rb : RB) (before : Option RB) (implObs : String) (isMove : Bool) (dr sr : Rect) :
+    St × String × String :=
+  if !srcOk rb sr then (st, "bad-op", "")
+  else
+    let rb' := (if isMove then RBCopy.move fx rb dr sr else RBCopy.copy fx rb dr sr).compact
+    (recordImpl { st with bufs := st.bufs.setIfInBounds st.cur rb' } implObs none, "r=- " ++ showRB rb',
+     specCopyMove isMove before implObs dr sr)
+
 def step (st : St) (ts : List String) (implObs : String) : St × String × String :=
   match ts with
   | ["new", l, c] =>
@@ -308,20 +317,11 @@ def step (st : St) (ts : List String) (implObs : String) : St × String × Strin
         if 0 ≤ k ∧ k.toNat < st.bufs.size then
           (recordImpl { st with cur := k.toNat } implObs none, "r=- " ++ showRB (st.bufs[k.toNat]?.getD rb), "")
         else (st, "bad-op", "")
-      | "copy", some [dt, dl, st_, sl, n, c] =>
-        let sr : Rect := ⟨st_, sl, n, c⟩
-        if !srcOk rb sr then (st, "bad-op", "")
-        else
-          let rb' := (RBCopy.copy fx rb ⟨dt, dl, n, c⟩ sr).compact
-          (recordImpl { st with bufs := st.bufs.setIfInBounds st.cur rb' } implObs none, "r=- " ++ showRB rb',
-           specCopyMove false before implObs ⟨dt, dl, n, c⟩ sr)
-      | "move", some [dt, dl, st_, sl, n, c] =>
-        let sr : Rect := ⟨st_, sl, n, c⟩
-        if !srcOk rb sr then (st, "bad-op", "")
-        else
-          let rb' := (RBCopy.move fx rb ⟨dt, dl, n, c⟩ sr).compact
-          (recordImpl { st with bufs := st.bufs.setIfInBounds st.cur rb' } implObs none, "r=- " ++ showRB rb',
-           specCopyMove true before implObs ⟨dt, dl, n, c⟩ sr)
+      | "copy", some [dt, dl, st_, sl, n, c] => copyMove st rb before implObs false ⟨dt, dl, n, c⟩ ⟨st_, sl, n, c⟩
+      | "move", some [dt, dl, st_, sl, n, c] => copyMove st rb before implObs true ⟨dt, dl, n, c⟩ ⟨st_, sl, n, c⟩
+      -- the destination rectangle with a size of its own (only its position is meaningful)
+      | "copy", some [dt, dl, st_, sl, n, c, dn, dc] => copyMove st rb before implObs false ⟨dt, dl, dn, dc⟩ ⟨st_, sl, n, c⟩
+      | "move", some [dt, dl, st_, sl, n, c, dn, dc] => copyMove st rb before implObs true ⟨dt, dl, dn, dc⟩ ⟨st_, sl, n, c⟩
       | "blit", some [k] =>
         if 0 ≤ k ∧ k.toNat < st.bufs.size then
           let same := k.toNat == st.cur
